@@ -406,7 +406,7 @@ fn canon_real(v: &Value, how: usize) -> Result<(Value, String), String> {
 /// last `t` members, which belong at random places (inside the sorted part,
 /// after it, before it). Nested one level down half of the time.
 pub fn nearly_sorted_object(rng: &mut Rng, n: usize, t: usize) -> RVal {
-	let mut keys: Vec<String> = (0..n).map(|j| format!("k{:03}", j * 2)).collect();
+	let mut keys: Vec<String> = (0..n).map(|j| if j % 9 == 4 { format!("k{:03}\u{e9}", j * 2) } else { format!("k{:03}", j * 2) }).collect();
 	keys.sort_by(|a, b| a.encode_utf16().cmp(b.encode_utf16()));
 	let mut entries: Vec<(String, RVal)> = keys.iter().enumerate().map(|(j, k)| (k.clone(), RVal::Num(j.to_string()))).collect();
 	for x in 0..t {
@@ -585,6 +585,20 @@ pub fn run_c09(cfg: &Config) -> i32 {
 		}
 		rep.distinct_by_construction(cnt);
 		rep.count("family:nearly-sorted-wide-objects", cnt);
+		rep
+	});
+	total.merge(rep);
+	// arrays of records (shared key sequence, optional trailing members, empty records)
+	let n = cfg.budget(4_000, 200_000);
+	let rep = parallel(cfg.threads, 16, |i| {
+		let mut rep = Report::new();
+		let mut rng = Rng::new(seed).fork(0xc09f + i as u64);
+		for k in 0..(n / 16).max(1) {
+			let r = gen::gen_records(&mut rng);
+			rep.distinct_hash(fnv(doc_of(&r).as_bytes()));
+			c09_one(&mut rep, "arrays-of-records", &r, k);
+		}
+		rep.count("family:arrays-of-records", (n / 16).max(1));
 		rep
 	});
 	total.merge(rep);
@@ -1100,15 +1114,28 @@ pub fn run_c10(cfg: &Config) -> i32 {
 		let sizes: Vec<usize> = if cfg!(miri) { vec![34] } else { (1..=(if cfg.san { 40usize } else { 96 })).filter(|n| n % 16 == i).collect() };
 		for n in sizes {
 			for t in 0..=9usize {
-				let r = nearly_sorted_object(&mut rng, n, t);
+				let r = if t == 9 { gen::gen_records(&mut rng) } else { nearly_sorted_object(&mut rng, n, t) };
+				// every object of the value (one level down in arrays) shuffled or rotated
 				let shuffle = |rng: &mut Rng, r: &RVal| -> RVal {
 					let mut c = r.clone();
-					let o = match &mut c {
-						RVal::Arr(a) => a.last_mut().unwrap(),
-						other => other,
+					let rot = rng.chance(1, 3);
+					let mut mix = |o: &mut RVal| {
+						if let RVal::Obj(e) = o {
+							if rot && e.len() > 1 {
+								let k = 1 + rng.below(e.len() - 1);
+								e.rotate_left(k);
+							} else {
+								rng.shuffle(e);
+							}
+						}
 					};
-					if let RVal::Obj(e) = o {
-						rng.shuffle(e);
+					match &mut c {
+						RVal::Arr(a) => {
+							for x in a.iter_mut() {
+								mix(x)
+							}
+						}
+						other => mix(other),
 					}
 					c
 				};
@@ -1118,7 +1145,10 @@ pub fn run_c10(cfg: &Config) -> i32 {
 				rep.count("nearly_sorted_wide_objects", 1);
 				let case = json!({"sub": "canon-pair", "a": doc_of(&r), "b": doc_of(&alt)});
 				match (canon_real(&from_rval(&r), t % 3), canon_real(&from_rval_push(&alt), 0)) {
-					(Ok((c1, s1)), Ok((_, s2))) => {
+					(Ok((c1, s1)), Ok((c2, s2))) => {
+						if let Ok(Err(m)) = guard(|| check_queryable(&c2)) {
+							rep.violation("C10:stale-index", format!("after canonicalizing a shuffled object of {} members: {}", n, m), case.clone());
+						}
 						if s1 != s2 {
 							rep.violation("C10:permutation-changes-canonical-form", format!("an object of {} members sorted except for its last {} and a shuffled copy canonicalize differently: `{}` vs `{}`", n, t, show(s1.as_bytes()), show(s2.as_bytes())), case.clone());
 						}
